@@ -111,11 +111,11 @@ CLAIMED.update({
               "getValuesInIntervals filter, exact getValueAtTime on sorted data, fuzzy getValueAtTime on a strictly time-sorted series "
               "(the row returned is a row of the series, none is nearer to the target, the earlier one on a tie; IndexError iff no "
               "sample is left), fuzzy getValuesAtPoints (for time-ordered points every returned row is nearest over the WHOLE "
-              "series: handing the stop index on as the next start index loses nothing), intervalOverlapCheck with default and time "
+              "series: handing the stop index on as the next start index loses nothing), intervalOverlapCheck with default, time and percent "
               "thresholds, and that validate() is True exactly on sorted, positive, non-overlapping, in-span lists.  Implementation "
-              "results are compared with the models and with definitions written from the property text inside Coq; the complement helper, percent thresholds, the regex variant of find and the equality clauses are evaluated.",
+              "results are compared with the models and with definitions written from the property text inside Coq; the complement helper, the binary64 division of the percent threshold, the regex variant of find and the equality clauses are evaluated.",
               "Coq proof (list induction, boolean/arith reasoning) + in-Coq differential correspondence and oracle", "5/C15",
-              "partial: invertIntervalList (proved under C17), percent thresholds, regex find and == are evaluated, not proved."),
+              "partial: invertIntervalList (proved under C17), the binary64 side of percent thresholds, regex find and == are evaluated, not proved."),
 })
 
 CLAIMED.update({
